@@ -171,7 +171,9 @@ def main():
                     if any(x and x[0] == "FUEL" for x in mo): stats["model_fuel"] += 1
                     if any(x and x[0].startswith("ERROR") for x in mo):
                         problems.append({"case": c, "seed": s, "what": "model driver error: %s" % mo, "key": None}); continue
-                    r = impl[s][c["_id"]]; stats["impl_runs"] += 1
+                    r = impl[s][c["_id"]]
+                    if r.get("exc") == "NotRun": stats["not_run"] = stats.get("not_run", 0) + 1; continue
+                    stats["impl_runs"] += 1
                     if "exc" in r and r["exc"] not in getattr(mod, "EXPECTED_EXC", ()): stats["impl_errors"] += 1
                     for pb in (mod.judge(c, r, mo) or []):
                         pb.update({"case": c, "seed": s, "impl": r, "model": mo}); problems.append(pb)
@@ -208,6 +210,7 @@ def main():
             try:
                 impl0 = common.run_impl(pid, cases, seeds[:1], getattr(mod, "ENV", None))[seeds[0]] if cases else []
                 for c in cases:
+                    if impl0[c["_id"]].get("exc") == "NotRun": continue
                     o = mod.oracle(c, impl0[c["_id"]])
                     if o and o.get("violates"): found = (c, impl0[c["_id"]], o); break
                 if not found and hasattr(mod, "search_cases"):
@@ -216,6 +219,7 @@ def main():
                     for i, c in enumerate(extra): c["_id"] = i
                     impl1 = common.run_impl(pid, extra, seeds[:1], getattr(mod, "ENV", None))[seeds[0]] if extra else []
                     for c in extra:
+                        if impl1[c["_id"]].get("exc") == "NotRun": continue
                         o = mod.oracle(c, impl1[c["_id"]])
                         if o and o.get("violates"): found = (c, impl1[c["_id"]], o); break
             except Exception: log.append(traceback.format_exc())
